@@ -63,11 +63,17 @@ pub fn gen_bounded(rng: &mut Rng, seed: u64) -> Case {
     }
 }
 
-pub fn gen_unbounded(rng: &mut Rng, seed: u64) -> Case {
+/// `class`: 0 = quiescent connection (only reads pending when the network dies), 1 = network dies
+/// before / during the handshake, 2 = network dies with data in flight
+pub fn gen_unbounded(rng: &mut Rng, seed: u64, class: u64) -> Case {
     let mut params = scenario::gen_params(rng);
     params.idle_client_ms = rng.range(5, 15) * 1000;
     params.idle_server_ms = rng.range(5, 15) * 1000;
-    let tb = Duration::from_millis(*rng.pick(&[0u64, 5, 15, 30, 60, 150, 400, 1000, 3000]));
+    let tb = Duration::from_millis(match class {
+        0 => 4000,
+        1 => *rng.pick(&[0u64, 1, 5, 15, 30]),
+        _ => *rng.pick(&[150u64, 400, 1000]),
+    });
     let lat = Duration::from_millis(*rng.pick(&[1, 10, 25]));
     let mut c2s = FaultProfile { latency: lat, ..Default::default() };
     let mut s2c = FaultProfile { latency: lat, ..Default::default() };
@@ -92,15 +98,39 @@ pub fn gen_unbounded(rng: &mut Rng, seed: u64) -> Case {
             "corrupt"
         }
     };
-    let mut jobs = scenario::gen_jobs(rng, &params, 600_000);
-    // make sure something is still in progress when the network dies
-    jobs.push(scenario::Job { kind: scenario::JobKind::BidiEcho, size: 400_000, chunk: 4096 });
+    let mut jobs = if class == 0 { scenario::gen_jobs(rng, &params, 30_000) } else { scenario::gen_jobs(rng, &params, 600_000) };
+    if class == 0 {
+        // everything above is long finished at T_b; this read stays pending
+        jobs.push(scenario::Job { kind: scenario::JobKind::Hang, size: rng.range(1, 2000) as usize, chunk: 4096 });
+    } else {
+        // make sure something is still in progress when the network dies
+        jobs.push(scenario::Job { kind: scenario::JobKind::BidiEcho, size: 2_000_000, chunk: 4096 });
+    }
     let deadline = tb + Duration::from_millis(params.idle_client_ms + params.idle_server_ms + 10_000);
     Case {
         spec: Spec { seed, params, c2s, s2c, jobs, datagrams: vec![], log: LogMode::Capture, with_qlog: true, deadline, clean_close: false },
         bounded_until_ms: None,
         tb_ms: Some(tb.as_millis() as u64),
         label: format!("unbounded {label} at {} ms", tb.as_millis()),
+    }
+}
+
+/// Trigger class of an unbounded-fault scenario, derived from what was observed:
+/// `handshake` = the network died before the client saw the handshake complete,
+/// `quiescent` = every transfer job had completed before T_b (only a read is pending),
+/// `data-in-flight` = otherwise.
+pub fn unbounded_class(case: &Case, out: &Outcome) -> &'static str {
+    let tb = case.tb_ms.unwrap_or(0);
+    match out.shared.handshake_ms {
+        None => "handshake",
+        Some(h) if h >= tb => "handshake",
+        _ => {
+            if out.shared.jobs.iter().all(|j| j.kind == "Hang" || j.done_ms.is_some_and(|d| d < tb)) {
+                "quiescent"
+            } else {
+                "data-in-flight"
+            }
+        }
     }
 }
 
@@ -127,8 +157,9 @@ pub fn evaluate(case: &Case, out: &Outcome) -> Verdict {
             f.push(("liveness.bounded:transfer".into(), format!("transfers incomplete at the virtual deadline ({} ms; faults ended at {} ms) [{}]: {}", out.spec.deadline.as_millis(), case.bounded_until_ms.unwrap(), case.label, stuck.join(" "))));
         }
     } else if !out.finished {
+        let class = unbounded_class(case, out);
         let pending: Vec<String> = out.shared.jobs.iter().enumerate().filter(|(_, j)| j.done_ms.is_none() && j.open_err.is_none()).map(|(i, j)| format!("#{i} {}", j.to_json())).take(3).collect();
-        f.push(("failure.bounded".into(), format!("application futures still pending {} ms (virtual) after the network failed for good [{}]; client_term={:?} server_term={:?}: {}", out.spec.deadline.as_millis() as u64 - case.tb_ms.unwrap_or(0), case.label, out.shared.client_term, out.shared.server_term, pending.join(" "))));
+        f.push((format!("failure.bounded:{class}"), format!("application futures still pending (or an application not told) {} ms (virtual) after the network failed for good [{}]; client_term={:?} server_term={:?}: {}", out.spec.deadline.as_millis() as u64 - case.tb_ms.unwrap_or(0), case.label, out.shared.client_term, out.shared.server_term, pending.join(" "))));
     }
     Verdict { findings: f, handshake_ok: hs, all_complete }
 }
@@ -160,6 +191,7 @@ pub fn observe(rep: &mut Report, case: &Case, out: &Outcome, v: &Verdict) {
         }
     } else {
         rep.count("unbounded_scenarios");
+        rep.count(&format!("unbounded_class_{}", unbounded_class(case, out)));
         if out.finished {
             rep.count("unbounded_all_futures_resolved");
         }
@@ -184,6 +216,9 @@ pub fn run(args: &Args, rep: &mut Report) {
         let out = scenario::run(&case.spec);
         let ver = evaluate(&case, &out);
         observe(rep, &case, &out, &ver);
+        if args.flag("dump") {
+            dump(&out);
+        }
         rep.evaluations += 1;
         for (sig, what) in ver.findings {
             rep.violation(format!("C02.{sig}"), what, case.to_json());
@@ -197,7 +232,14 @@ pub fn run(args: &Args, rep: &mut Report) {
     for i in 0..n {
         let sseed = rng.next_u64();
         let mut r = rng.fork(i);
-        let case = if r.chance(2, 3) { gen_bounded(&mut r, sseed) } else { gen_unbounded(&mut r, sseed) };
+        // unbounded classes 1 and 2 are known to hang (see KNOWN_FINDINGS) and cost ~1 s of wall time per
+        // virtual second while they do: they are explored sparsely
+        let case = match r.below(if thorough { 12 } else { 24 }) {
+            0 => gen_unbounded(&mut r, sseed, 1),
+            1 => gen_unbounded(&mut r, sseed, 2),
+            2..=5 => gen_unbounded(&mut r, sseed, 0),
+            _ => gen_bounded(&mut r, sseed),
+        };
         let out = scenario::run(&case.spec);
         let ver = evaluate(&case, &out);
         observe(rep, &case, &out, &ver);
@@ -217,4 +259,21 @@ pub fn run(args: &Args, rep: &mut Report) {
             rep.violation(format!("C02.{sig}"), what, rj);
         }
     }
+}
+
+/// debugging aid: `l2 c02 --replay f --dump 1` prints the outcome summary to stderr
+pub fn dump(out: &Outcome) {
+    let s = &out.shared;
+    eprintln!(
+        "finished={} end_ms={} handshake_ms={:?} server_handshake_ms={:?} all_done_ms={:?} client_term={:?}@{:?} server_term={:?}@{:?} accepted={}",
+        out.finished, out.end_ms, s.handshake_ms, s.server_handshake_ms, s.all_done_ms, s.client_term, s.client_term_ms, s.server_term, s.server_term_ms, s.accepted_conns
+    );
+    for j in &s.jobs {
+        eprintln!("  {}", j.to_json());
+    }
+    let mut last = std::collections::BTreeMap::new();
+    for e in out.net.with(|n| n.sent.clone()) {
+        last.insert(format!("{}->{}", e.src, e.dst), (e.t.as_millis(), e.ordinal, e.len, e.kinds.clone()));
+    }
+    eprintln!("  last sends: {last:?}");
 }
